@@ -703,6 +703,7 @@ static int cif_loop_get_names_internal(cif_loop_tp *loop, UChar ***item_names, i
                                 while (temp_names[++name_count] != NULL) {
                                     free(temp_names[name_count]);
                                 }
+                                free(temp_names);
                             } /* else drop out the bottom and fail */
                             break;
                     }
